@@ -448,6 +448,11 @@ def applyEditL (e : Edit) : List Node → List Node
   | k :: ks => applyEdit e k :: applyEditL e ks
 end
 
+/-- a history of in-place mutations, applied one after the other -/
+def applyEdits : List Edit → Node → Node
+  | [], t => t
+  | e :: es, t => applyEdits es (applyEdit e t)
+
 /-! ### `==` -/
 
 /-- the number a value is for `int.__eq__` (`bool` is a subclass of `int`: `True == 1`) -/
